@@ -7,7 +7,12 @@ def run(ctx):
     run_durable(ctx,
                 model=["s02_amo_retry_caughtfail", "s06_amo_three_attempts", "s14_amo_exhaust", "s16_wait_wait", "s21_step_then_amo"],
                 programs=["s02_amo_retry_caughtfail", "s06_amo_three_attempts", "s14_amo_exhaust", "s16_wait_wait", "s08_large_child",
-                          "s21_step_then_amo"],
+                          "s21_step_then_amo",
+                          # at-most-once steps inside map / parallel branches that are retried / re-traversed IN-PROCESS
+                          {"nodes": [{"k": "par", "caught": True, "branches": [[{"k": "step", "sem": "AMO", "fail": 1, "max": 2, "delay": 1}, {"k": "step"}],
+                                                                              [{"k": "step", "dur": 3.0}]]}, {"k": "step"}]},
+                          {"nodes": [{"k": "map", "branches": [[{"k": "step", "sem": "AMO"}, {"k": "wait", "s": 1}, {"k": "step", "sem": "AMO"}],
+                                                               [{"k": "step", "dur": 2.5}]]}, {"k": "wait"}, {"k": "step"}]}],
                 oracle_fns=[oracles.c04],
                 gen_kw={"kinds": ["step", "step", "wait", "child"]},
                 scen_kw={"crash": 0.8, "paging": 0.3},
